@@ -44,6 +44,19 @@ func checkFrame(c *spec.Cemi, stratum string) {
 		r.Violate("encode.panic", attrs, cs, "cemi.Pack panicked on %s: %s", trunc(libx.Dump(m)), p)
 		return
 	}
+	// the same bytes must result when the buffer held something else before
+	var got2 []byte
+	if p := mon.Guard(func() {
+		got2 = make([]byte, cemi.Size(m))
+		for i := range got2 {
+			got2[i] = 0xff
+		}
+		cemi.Pack(got2, m)
+	}); p == "" && string(got2) != string(got) {
+		cs["into_zeroed_buffer"], cs["into_0xff_buffer"] = hex.EncodeToString(got), hex.EncodeToString(got2)
+		r.Violate("encode.stale-bits", attrs, cs, "L_Data %s: encoding depends on the previous content of the buffer: %x into a zeroed buffer, %x into a buffer of 0xff (octet %d)", trunc(libx.Dump(m)), clip(got), clip(got2), firstDiff(got, got2))
+		return
+	}
 	if string(got) != string(want) {
 		cs["library"] = hex.EncodeToString(got)
 		r.Violate("encode.layout", attrs, cs, "L_Data %s: library bytes %x differ from the cEMI layout %x (first difference at octet %d)", trunc(libx.Dump(m)), clip(got), clip(want), firstDiff(got, want))
@@ -66,6 +79,21 @@ func checkFrame(c *spec.Cemi, stratum string) {
 	if err != nil || int(n) != len(want) || dec == nil {
 		r.Violate("decode.rejected", attrs, cs, "layout %x: err=%v consumed=%d of %d", clip(want), err, n, len(want))
 		return
+	}
+	// the decoded fields are copies: overwriting the frame afterwards must not change them
+	{
+		frame := append([]byte(nil), want...)
+		var d2 cemi.Message
+		if _, e2 := cemi.Unpack(frame, &d2); e2 == nil && d2 != nil {
+			before := libx.Dump(d2)
+			for i := range frame {
+				frame[i] ^= 0xa5
+			}
+			if after := libx.Dump(d2); after != before {
+				r.Violate("decode.aliasing", attrs, cs, "the message decoded from %x changes when the frame buffer is overwritten afterwards: %s -> %s", clip(want), trunc(before), trunc(after))
+				return
+			}
+		}
 	}
 	if uint8(dec.MessageCode()) != c.Code || libx.Dump(dec) != libx.Dump(m) {
 		cs["decoded"] = trunc(libx.Dump(dec))
@@ -198,6 +226,9 @@ func run(rr *mon.Run) {
 						} else {
 							t.Cmd = uint8(apci)
 							t.Data = []byte{uint8(seq*4+apci) & 0x3f, byte(seq)}
+							if seq%5 == 4 {
+								t.Data = []byte{uint8(seq*4+apci) & 0x3f}
+							}
 						}
 						c.TPDU = t
 						checkFrame(c, "tpci-apci")
@@ -233,6 +264,41 @@ func run(rr *mon.Run) {
 	}
 	r.DistinctAdd(n)
 	r.Observe("first_octet_high_bit_cases", n)
+	// 2c. empty application data (a group read): one zero data octet shares the
+	// octet with the APCI, whatever the buffer held before (encode only)
+	n = 0
+	for apci := 0; apci < 16; apci++ {
+		for seq := 0; seq < 17; seq++ {
+			for fill := 0; fill < 3; fill++ {
+				r.Eval(1)
+				app := &cemi.AppData{Command: cemi.APCI(apci), Numbered: seq > 0, SeqNumber: uint8(seq) & 15}
+				if fill == 2 {
+					app.Data = []byte{}
+				}
+				ld := &cemi.LDataReq{LData: cemi.LData{Control1: 0xbc, Control2: 0xe0, Source: 0x1203, Destination: 0x0a07, Data: app}}
+				want := spec.EncodeCemi(nil, &spec.Cemi{Code: spec.McLDataReq, Ctrl1: 0xbc, Ctrl2: 0xe0, Src: 0x1203, Dst: 0x0a07,
+					TPDU: spec.TPDU{Cmd: uint8(apci), Numbered: seq > 0, Seq: uint8(seq) & 15}})
+				var got []byte
+				if p := mon.Guard(func() {
+					got = make([]byte, cemi.Size(ld))
+					for i := range got {
+						got[i] = []byte{0x00, 0xff, 0x2a}[fill]
+					}
+					cemi.Pack(got, ld)
+				}); p != "" {
+					r.Violate("encode.panic", map[string]string{"stratum": "empty-data"}, nil, "cemi.Pack panicked on empty application data: %s", p)
+					continue
+				}
+				if string(got) != string(want) {
+					r.Violate("encode.layout", map[string]string{"stratum": "empty-data"}, map[string]interface{}{"apci": apci, "library": hex.EncodeToString(got), "layout": hex.EncodeToString(want), "buffer_prefill": fill},
+						"APCI %d with empty data into a buffer pre-filled with %#02x: library bytes %x, layout %x", apci, []byte{0x00, 0xff, 0x2a}[fill], got, want)
+				}
+				n++
+			}
+		}
+	}
+	r.DistinctAdd(n)
+	r.Observe("empty_data_cases", n)
 	// 3. payload and info lengths
 	n = 0
 	for _, code := range ldataCodes {
